@@ -331,6 +331,7 @@ class World:
                     if y not in seen and y._status_ == 'marked_to_delete': seen.append(y); todo.append(y)
             return False
         found = 0
+        res = {'all_deleted': True, 'strict_family': True, 'all_in_cycle': True}
         for E2 in self.E:
             for attr in E2._attrs_with_columns_:
                 if not attr.reverse or attr.reverse.entity is not p.__class__: continue
@@ -342,9 +343,17 @@ class World:
                     if E2 is p.__class__ and pk2 == rawpk(p): continue      # a row referencing itself does not block its own DELETE
                     found += 1
                     o2 = next((o for o in cache.objects if o.__class__ is E2 and rawpk(o) == pk2), None)
-                    if o2 is None or o2._status_ != 'marked_to_delete': return False
-                    if attr.reverse.cascade_delete and not reaches(p, o2): return False     # the cascade child should have gone first
-        return found > 0
+                    deleted = o2 is not None and o2._status_ == 'marked_to_delete'
+                    # stale: in the session the blocker no longer refers to p (its pending UPDATE was cancelled by its own deletion)
+                    stale = deleted and o2._vals_.get(attr, p) is not p
+                    cyc = deleted and reaches(p, o2)
+                    if not deleted: res['all_deleted'] = False
+                    # a live cascade child of p should have been queued before p by Entity._delete_, unless the rows form a cycle
+                    if not (deleted and (stale or cyc or not attr.reverse.cascade_delete)): res['strict_family'] = False
+                    if not cyc: res['all_in_cycle'] = False
+        res['found'] = found
+        if not found: res['all_deleted'] = res['strict_family'] = res['all_in_cycle'] = False
+        return res
 
 # ---------------------------------------------------------------- the engine's own orderability analysis
 
@@ -641,8 +650,8 @@ class Run:
             self.byproducts.append(('reference to a marked_to_delete object accepted', self.hist))
         if not cyclic and hyp and err is not None:
             det = {'error': str(err)[:300], 'statements_so_far': trace}
-            if self.strict and trace and trace[-1][0] == 'delete' and 'FOREIGN KEY' in str(err):
-                try: det['blocked_only_by_rows_deleted_in_the_same_flush'] = w.blocking_rows_are_deleted_too(objs[trace[-1][1]])
+            if trace and trace[-1][0] == 'delete' and 'FOREIGN KEY' in str(err):
+                try: det['refused_delete'] = w.blocking_rows_are_deleted_too(objs[trace[-1][1]])
                 except Exception as e2: det['classification_error'] = repr(e2)
             self.problems.append(('flush raised %s although the pending references can be ordered' % type(err).__name__, det))
         if err is None:
@@ -931,6 +940,9 @@ def explore(ctx, strict, nhist):
     return runs
 
 STRICT_DELETE_KEY = 'strict-schema:DELETE-refused:delete-order-relies-on-ON-DELETE'
+# Pony's OWN schema: the rows reference each other; Entity._delete_ queued the cascade target before the object that still
+# refers to it through a Required attribute (plain FK); same defect as C15's commit-failed:required-reference-inside-cascade-closure
+CYCLE_DELETE_KEY = 'pony-schema:DELETE-refused:reference-cycle-between-deleted-rows:cascade-target-before-its-required-referrer'
 
 def report(ctx, spec, hist, strict, what, detail, shrunk=False):
     det = detail
@@ -938,15 +950,24 @@ def report(ctx, spec, hist, strict, what, detail, shrunk=False):
         ps = try_history(ctx, spec, hist, strict)
         det = next((p[1] for p in ps if p[0] == what), detail)
     key = 'c16:' + json.dumps([spec, hist, strict], sort_keys=True)
+    st = (det or {}).get('statements_so_far') if isinstance(det, dict) else None
+    cls = (det.get('refused_delete') or {}) if isinstance(det, dict) else {}
+    refused_delete = bool(what.startswith('flush raised') and st and st[-1][0] == 'delete' and 'FOREIGN KEY' in str(det.get('error')))
     if strict:
         # one class of failures has a canonical key: the strict backend refuses a DELETE (the last traced statement) of a
-        # history that Pony's own DDL (ON DELETE SET NULL / CASCADE) accepts
-        st = (det or {}).get('statements_so_far') if isinstance(det, dict) else None
-        if what.startswith('flush raised') and st and st[-1][0] == 'delete' and 'FOREIGN KEY' in str(det.get('error')) \
-                and det.get('blocked_only_by_rows_deleted_in_the_same_flush') is True and not try_history(ctx, spec, hist, False):
+        # history that Pony's own DDL (ON DELETE SET NULL / CASCADE) accepts; every row that blocks it is deleted later by the
+        # same flush and is either a stale reference (its pending UPDATE was cancelled by its deletion), a non-cascading
+        # referrer, or part of a reference cycle between the deleted rows
+        if refused_delete and cls.get('strict_family') is True and not try_history(ctx, spec, hist, False):
             key = STRICT_DELETE_KEY
             ctx.count('strict:delete-refused')
-    if key != STRICT_DELETE_KEY and not shrunk:
+    elif refused_delete and cls.get('all_deleted') is True and cls.get('all_in_cycle') is True:
+        # Pony's own schema refuses the DELETE: only when the blocking rows are deleted by the same flush AND reference
+        # each other with the refused row (no order of plain DELETEs exists; the backend's ON DELETE action on one edge of the
+        # cycle would make the opposite order work)
+        key = CYCLE_DELETE_KEY
+        ctx.count('pony-schema:delete-refused:reference-cycle')
+    if key not in (STRICT_DELETE_KEY, CYCLE_DELETE_KEY) and not shrunk:
         spec2, hist2 = shrink(ctx, spec, hist, strict, what)
         return report(ctx, spec2, hist2, strict, what, detail, shrunk=True)
     if strict:
